@@ -472,6 +472,10 @@ impl Decoder {
                 .decrypt_padded_mut::<NoPadding>(&mut wrapped_key)
                 .map_err(|_| PdfError::InvalidPassword));
 
+            // /UE and /OE come from the file: anything but a whole 32 byte key cannot be used by any cipher
+            if key_slice.len() != 32 {
+                err!(other!("the file key unwrapped from UE / OE has {} bytes instead of 32", key_slice.len()));
+            }
             let decoder = Decoder::new(key_slice.into(),  32, method, dict.encrypt_metadata);
             Ok(decoder)
         } else {
